@@ -27,6 +27,9 @@ def families(tier):
         fams.append(("around:" + d, [("sym", 1), d, ("sym", 1)]))
         if tier == "thorough":
             fams.append(("around2:" + d, [("sym", 2), d, ("sym", 2)]))
+    # long literal runs before and between directives (a scan bounded at some length would stop splitting there)
+    for L in ((40, 256, 300) if tier == "quick" else (40, 255, 256, 257, 300, 1030)):
+        fams.append(("long%d" % L, ["x" * L, ("sym", 1), "%p", "y" * L, "\\n", ("sym", 1)]))
     return fams
 
 
